@@ -94,6 +94,11 @@ theorem accept_is_counts_and_order (spacingOk : List Int → Bool) (files : List
         (fun b => b.map (·.p) == distinctSorted (files.map (·.p)))) :=
   Src.acceptB_counts spacingOk files
 
+/-- **the trimming block of `get_data` as written in dcmstack.py is the model's `stackTrim`** -/
+theorem get_data_trim_is_model (a : Wrap.Arr α) (rows cols S T V : Nat) :
+    Py.get_data_trim a [rows, cols, S, T, V] = .ok (Wrap.stackTrim a T V) :=
+  Src.get_data_trim_eq a rows cols S T V
+
 /-- the translator translated every function it is asked for -/
 theorem translator_complete : Gen.codeMissing = [] := rfl
 
